@@ -58,6 +58,37 @@ def _alarm(*_a):
 HARD_LIMIT_S = int(os.environ.get('VERIF_OB_LIMIT', '300'))
 
 
+class NativeTimeout(Exception):
+    pass
+
+
+class time_limit(object):
+    """run native code of the repository under a wall-clock limit (a changed tree may loop forever)"""
+    def __init__(self, seconds):
+        self.seconds = int(seconds)
+
+    def __enter__(self):
+        import signal
+
+        def on_alarm(signum, frame):
+            raise NativeTimeout('no result within %d s' % self.seconds)
+        self.outer_left = signal.alarm(0)             # an enclosing limit keeps running (approximately) afterwards
+        self.t0 = time.time()
+        self.old = signal.signal(signal.SIGALRM, on_alarm)
+        signal.alarm(min(self.seconds, self.outer_left) if self.outer_left else self.seconds)
+
+    def __exit__(self, *a):
+        import signal
+        signal.alarm(0)
+        signal.signal(signal.SIGALRM, self.old)
+        if self.outer_left:
+            signal.alarm(max(1, int(self.outer_left - (time.time() - self.t0))))
+        return False
+
+
+NATIVE_LIMIT_S = int(os.environ.get('VERIF_NATIVE_LIMIT', '240'))
+
+
 def _discharge_index(i):
     import signal
     t0 = time.time()
@@ -352,7 +383,10 @@ class Check(object):
         suffix = ''
         if ob.replay is not None:
             try:
-                native = ob.replay(model.get('env', model) if isinstance(model, dict) else {})
+                with time_limit(NATIVE_LIMIT_S):
+                    native = ob.replay(model.get('env', model) if isinstance(model, dict) else {})
+            except NativeTimeout as e:
+                native = {'confirmed': True, 'detail': 'the real code did not return while replaying this obligation: %s' % e}
             except Exception:
                 native = {'confirmed': False, 'detail': 'replay crashed: ' + traceback.format_exc()[-800:]}
             rep['native_replay'] = native
